@@ -15,7 +15,7 @@
    literal transcription Spec/BibtexCase.v. *)
 From Coq Require Import List NArith ZArith Bool String.
 Local Open Scope string_scope.
-From BP Require Import Base.Chars Model.Blocks Gen.Constants Model.Names Spec.C13 Spec.BibtexCase Proofs.BibtexCaseProofs Proofs.BibtexCaseAgree Proofs.NamesPartProofs Proofs.NamesParseProofs Proofs.NamesTokProofs.
+From BP Require Import Base.Chars Model.Blocks Gen.Constants Model.Names Spec.C13 Spec.BibtexCase Proofs.BibtexCaseProofs Proofs.BibtexCaseAgree Proofs.BibtexCaseAgree2 Proofs.NamesPartProofs Proofs.NamesParseProofs Proofs.NamesTokProofs.
 Import ListNotations.
 
 (* MAIN THEOREM: in strict mode (the default, and what SplitNameParts uses) the function IS the specification:
@@ -133,6 +133,12 @@ Theorem C13_word_case_agrees_without_backslash : forall w,
   forallb ascii_canon w = true -> no_bs w = true -> lib_von w = von_token_found w.
 Proof. exact agree_no_backslash. Qed.
 Print Assumptions C13_word_case_agrees_without_backslash.
+
+(* the same for words that hold escapes but no brace (`\'Emile`, `\o`, `d\'Alembert`): the deviation needs a backslash AND a brace *)
+Theorem C13_word_case_agrees_without_brace : forall w,
+  forallb ascii_canon w = true -> no_brace w = true -> lib_von w = von_token_found w.
+Proof. exact agree_no_brace. Qed.
+Print Assumptions C13_word_case_agrees_without_brace.
 
 (* one word per class D1..D5 of the finding with both verdicts; and a sample (a test, bounded) of forms that agree *)
 Example C13_K14_classes :
